@@ -2,12 +2,9 @@ package main
 
 import (
 	"net/http"
-	"net/http/httptest"
 	"sync"
 	"sync/atomic"
 	"time"
-
-	"github.com/maruel/panicparse/v2/stack/webstack"
 
 	"verifharness/core"
 )
@@ -62,15 +59,23 @@ func webCutRounds(r *core.Run, rounds int) {
 				}
 			}()
 			for _, q := range []string{"maxmem=1048576&augment=0", "maxmem=1&augment=0", "maxmem=1500000&augment=0&similarity=anyvalue"} {
-				req := httptest.NewRequest("GET", "/debug?"+q, nil)
-				w := httptest.NewRecorder()
-				webstack.SnapshotHandler(w, req)
+				code, body, verdict, st := callHandler("/debug?"+q, 3*time.Minute)
 				r.Eval(1)
 				r.Count("web_cut_requests", 1)
-				if w.Code != http.StatusOK && w.Code != http.StatusInternalServerError {
-					r.Violation("web-cut-status", "handler answered "+http.StatusText(w.Code)+" for a truncated dump", "webcut", map[string]any{"query": q, "goroutines": n})
+				switch {
+				case verdict == "blocked":
+					r.Violation("web-cut-handler-blocked", "the handler does not answer: a handler goroutine is parked inside the library:\n"+st, "webcut", map[string]any{"query": q, "goroutines": n})
+					return
+				case verdict == "slow":
+					r.Inconclusive("web cut: the handler watchdog fired while the handler was still running")
+					return
+				case code == 599:
+					panic(body)
 				}
-				r.Mark("web_cut_status", http.StatusText(w.Code))
+				if code != http.StatusOK && code != http.StatusInternalServerError {
+					r.Violation("web-cut-status", "handler answered "+http.StatusText(code)+" for a truncated dump", "webcut", map[string]any{"query": q, "goroutines": n})
+				}
+				r.Mark("web_cut_status", http.StatusText(code))
 			}
 		}()
 		close(ch)
